@@ -40,7 +40,7 @@ def gen_block(rng, depth, maxdepth, budget):
 
 def gen_cases(tier, seed):
     rng = gen.rng_for(seed, "c07", tier)
-    n = 1200 if tier == "quick" else 12000
+    n = 1200 if tier == "quick" else 60000
     cases = [{"program": [{"t": "with", "kind": "no_grad", "src": "fresh", "raise": False, "body": [
         {"t": "with", "kind": "no_grad", "src": "early", "raise": False, "body": [{"t": "probe_ops"}]}, {"t": "probe_ops"}]}], "seed": 1}]
     for k in range(n):
